@@ -61,6 +61,23 @@ def run(job):
         if verif_hooks is not None and hasattr(verif_hooks, "reset"):
             verif_hooks.reset()
     old_cwd = os.getcwd()
+    if job.get("edit_first"):   # C17 process history: an earlier edition of the imported files is compiled first in this process
+        try:
+            for path, (before, _after) in job["edit_first"].items():
+                with open(path, "w") as fh:
+                    fh.write(before)
+            if job.get("cwd"):
+                os.chdir(job["cwd"])
+            compile_dsl_source(job["src"], source_name=job.get("source_name", "<string>"), use_json=True)
+        except BaseException:  # noqa: BLE001
+            pass
+        finally:
+            os.chdir(old_cwd)
+            for path, (_before, after) in job["edit_first"].items():
+                with open(path, "w") as fh:
+                    fh.write(after)
+        if verif_hooks is not None and hasattr(verif_hooks, "reset"):
+            verif_hooks.reset()
     try:
         if job.get("cwd"):
             os.chdir(job["cwd"])
